@@ -2,8 +2,8 @@
     cache-free reference semantics depend on the options only through the keys they look up. *)
 From Coq Require Import List NArith ZArith Bool Lia.
 Import ListNotations.
-From LV Require Import Model.Base Model.Template Model.Eval Model.Derived Model.EvalRun
-  Proofs.BaseProofs Proofs.EvalProofs Proofs.EvalInd Proofs.EvalUnfold Proofs.FrameProofs.
+From LV Require Import Model.Base Model.Template Model.Eval Model.Derived Model.EvalRun Proofs.BaseProofs Proofs.EvalProofs Proofs.EvalInd Proofs.EvalUnfold.
+From LV Require Import Proofs.FrameProofs.
 
 Section FrameTheorem.
   Variable u : N -> list value -> cres.
@@ -100,7 +100,7 @@ Section FrameTheorem.
   Proof. intros [l [E H]] [l' [E' H']] _. unfold obs. rewrite E, E'. cbn [fst snd]. congruence. Qed.
 
   Definition FrAll (e : expr) : Prop :=
-    forall o o', wf_dict o = true -> wf_dict o' = true ->
+    forall o o', wf_dict o = true -> wf_dict o' = true -> effects_opt_off o' = effects_opt_off o ->
       Fr o o' (evalN e o) (evalN e o') /\
       Fr o o' (validateN e o) (validateN e o') /\
       Fr o o' (keysN e o) (keysN e o').
@@ -128,7 +128,7 @@ Section FrameTheorem.
   Theorem frame_all e : frag e = true -> FrAll e.
   Proof.
     induction e using expr_ind'; intros Hf; cbn [frag] in Hf; try discriminate;
-      intros o o' Hw Hw'.
+      intros o o' Hw Hw' Hsw.
     - (* EValue *)
       repeat split; apply Fr_refl.
     - (* EOption *)
@@ -140,24 +140,24 @@ Section FrameTheorem.
       { unfold option_eval. apply Fr_bind; [apply Fr_rd|]. intros r.
         apply Fr_bind.
         - destruct r as [raw| |]; [apply Fr_resolved| |apply Fr_refl].
-          destruct dflt as [d|]; [|apply Fr_refl]. apply (HD o o' Hw Hw').
+          destruct dflt as [d|]; [|apply Fr_refl]. apply (HD o o' Hw Hw' Hsw).
         - intros v. destruct dom as [de|]; [|apply Fr_refl].
-          apply Fr_bind; [apply (HM o o' Hw Hw')|]. intros; apply Fr_refl. }
+          apply Fr_bind; [apply (HM o o' Hw Hw' Hsw)|]. intros; apply Fr_refl. }
       repeat split.
       + unf eval_EOption. apply Fr_wrap. exact Hev.
       + unf validate_EOption. apply Fr_bind; [apply Fr_rd|]. intros r.
-        destruct r as [raw| |]; [|destruct dflt as [d|]; [apply (HD o o' Hw Hw')|apply Fr_refl]|apply Fr_refl].
+        destruct r as [raw| |]; [|destruct dflt as [d|]; [apply (HD o o' Hw Hw' Hsw)|apply Fr_refl]|apply Fr_refl].
         apply Fr_bind; [apply Fr_wrap; exact Hev|intros; apply Fr_refl].
       + unf keys_EOption. apply Fr_bind; [apply Fr_rd|]. intros r.
-        destruct r as [v| |]; [|destruct dflt as [d|]; [apply (HD o o' Hw Hw')|apply Fr_refl]|apply Fr_refl].
+        destruct r as [v| |]; [|destruct dflt as [d|]; [apply (HD o o' Hw Hw' Hsw)|apply Fr_refl]|apply Fr_refl].
         destruct v; try apply Fr_refl.
         destruct (existsb _ s); [apply Fr_refl|].
         apply Fr_bind; [|intros; apply Fr_refl].
         apply Fr_unionM. intros; apply Fr_ref_keys.
     - (* EApply *)
       apply andb_prop in Hf as [Ha Hb].
-      destruct (IHe1 Ha o o' Hw Hw') as (E1 & V1 & K1).
-      destruct (IHe2 Hb o o' Hw Hw') as (E2 & V2 & K2).
+      destruct (IHe1 Ha o o' Hw Hw' Hsw) as (E1 & V1 & K1).
+      destruct (IHe2 Hb o o' Hw Hw' Hsw) as (E2 & V2 & K2).
       repeat split.
       + unf eval_EApply. apply Fr_wrap. apply Fr_bind; [exact E1|]. intros x.
         apply Fr_bind; [exact E2|]. intros; apply Fr_refl.
@@ -166,27 +166,27 @@ Section FrameTheorem.
         apply Fr_bind; [exact K2|]. intros; apply Fr_refl.
     - (* EBind *)
       apply andb_prop in Hf as [Hf Hdf]. apply andb_prop in Hf as [Hs Ht].
-      destruct (IHe Hs o o' Hw Hw') as (E1 & V1 & K1).
+      destruct (IHe Hs o o' Hw Hw' Hsw) as (E1 & V1 & K1).
       assert (HT : forall b, In b (map snd tbl) -> FrAll b).
       { intros b Hb. apply (Forall_tbl_In (fun x => frag x = true -> FrAll x) _ H b Hb). apply (frag_tbl_In _ Ht b Hb). }
       assert (HD : FrOpt dflt) by (destruct dflt; [apply H0; exact Hdf|exact I]).
       repeat split.
       + unf eval_EBind. apply Fr_wrap. apply Fr_bind; [exact E1|]. intros x.
         apply Fr_pick.
-        * intros b Hb. apply (HT b Hb o o' Hw Hw').
-        * destruct dflt as [d|]; [apply (HD o o' Hw Hw')|apply Fr_refl].
+        * intros b Hb. apply (HT b Hb o o' Hw Hw' Hsw).
+        * destruct dflt as [d|]; [apply (HD o o' Hw Hw' Hsw)|apply Fr_refl].
       + unf validate_EBind. apply Fr_bind; [exact V1|]. intros _.
         apply Fr_bind; [exact E1|]. intros x. apply Fr_pick.
-        * intros b Hb. apply (HT b Hb o o' Hw Hw').
-        * destruct dflt as [d|]; [apply (HD o o' Hw Hw')|apply Fr_refl].
+        * intros b Hb. apply (HT b Hb o o' Hw Hw' Hsw).
+        * destruct dflt as [d|]; [apply (HD o o' Hw Hw' Hsw)|apply Fr_refl].
       + unf keys_EBind. apply Fr_bind; [exact K1|]. intros a.
         apply Fr_bind; [exact E1|]. intros x.
         apply Fr_bind; [|intros; apply Fr_refl]. apply Fr_pick.
-        * intros b Hb. apply (HT b Hb o o' Hw Hw').
-        * destruct dflt as [d|]; [apply (HD o o' Hw Hw')|apply Fr_refl].
+        * intros b Hb. apply (HT b Hb o o' Hw Hw' Hsw).
+        * destruct dflt as [d|]; [apply (HD o o' Hw Hw' Hsw)|apply Fr_refl].
     - (* ESwitch *)
       apply andb_prop in Hf as [Hf Hdf]. apply andb_prop in Hf as [Hs Ht].
-      destruct (IHe Hs o o' Hw Hw') as (E1 & V1 & K1).
+      destruct (IHe Hs o o' Hw Hw' Hsw) as (E1 & V1 & K1).
       assert (HT : forall b, In b (map snd tbl) -> FrAll b).
       { intros b Hb. apply (Forall_tbl_In (fun x => frag x = true -> FrAll x) _ H b Hb). apply (frag_tbl_In _ Ht b Hb). }
       assert (HD : FrOpt dflt) by (destruct dflt; [apply H0; exact Hdf|exact I]).
@@ -199,73 +199,73 @@ Section FrameTheorem.
       + unf eval_ESwitch. apply Fr_wrap. apply Fr_bind; [exact Hdisp|]. intros dv.
         destruct dv as [k|].
         * destruct (negb (hashable k)); [apply Fr_refl|]. apply Fr_pick.
-          -- intros b Hb. apply (HT b Hb o o' Hw Hw').
-          -- destruct dflt as [d|]; [apply (HD o o' Hw Hw')|apply Fr_refl].
-        * destruct dflt as [d|]; [apply (HD o o' Hw Hw')|apply Fr_refl].
+          -- intros b Hb. apply (HT b Hb o o' Hw Hw' Hsw).
+          -- destruct dflt as [d|]; [apply (HD o o' Hw Hw' Hsw)|apply Fr_refl].
+        * destruct dflt as [d|]; [apply (HD o o' Hw Hw' Hsw)|apply Fr_refl].
       + unf validate_ESwitch. apply Fr_bind; [exact Hdisp|]. intros dv.
         destruct dv as [k|].
         * destruct (negb (hashable k)); [apply Fr_refl|]. apply Fr_pick.
-          -- intros b Hb. apply (HT b Hb o o' Hw Hw').
-          -- destruct dflt as [d|]; [apply (HD o o' Hw Hw')|apply Fr_refl].
-        * destruct dflt as [d|]; [apply (HD o o' Hw Hw')|apply Fr_refl].
+          -- intros b Hb. apply (HT b Hb o o' Hw Hw' Hsw).
+          -- destruct dflt as [d|]; [apply (HD o o' Hw Hw' Hsw)|apply Fr_refl].
+        * destruct dflt as [d|]; [apply (HD o o' Hw Hw' Hsw)|apply Fr_refl].
       + unf keys_ESwitch. apply Fr_bind; [exact Hdisp|]. intros dv.
         destruct dv as [k|].
         * destruct (negb (hashable k)); [apply Fr_refl|].
           apply Fr_bind.
           -- apply Fr_pick.
-             ++ intros b Hb. apply (HT b Hb o o' Hw Hw').
-             ++ destruct dflt as [d|]; [apply (HD o o' Hw Hw')|apply Fr_refl].
+             ++ intros b Hb. apply (HT b Hb o o' Hw Hw' Hsw).
+             ++ destruct dflt as [d|]; [apply (HD o o' Hw Hw' Hsw)|apply Fr_refl].
           -- intros a. apply Fr_bind; [exact K1|intros; apply Fr_refl].
-        * destruct dflt as [d|]; [apply (HD o o' Hw Hw')|apply Fr_refl].
+        * destruct dflt as [d|]; [apply (HD o o' Hw Hw' Hsw)|apply Fr_refl].
     - (* ECase *)
       apply andb_prop in Hf as [Hf Hdf]. apply andb_prop in Hf as [Hs Ht].
-      destruct (IHe Hs o o' Hw Hw') as (E1 & V1 & K1).
+      destruct (IHe Hs o o' Hw Hw' Hsw) as (E1 & V1 & K1).
       assert (HD : FrOpt dflt) by (destruct dflt; [apply H0; exact Hdf|exact I]).
       repeat split.
       + unf eval_ECase. apply Fr_wrap. apply Fr_bind; [exact E1|]. intros x.
         clear IHe E1 V1 K1 Hs. induction H as [|[c r] cases [Hc Hr] Hrest IH].
-        * destruct dflt as [d|]; [apply (HD o o' Hw Hw')|apply Fr_refl].
+        * destruct dflt as [d|]; [apply (HD o o' Hw Hw' Hsw)|apply Fr_refl].
         * cbn [fst snd] in *. apply andb_prop in Ht as [Ht1 Ht]. apply andb_prop in Ht1 as [Fc Frr].
-          cbv beta iota. apply Fr_bind; [apply (Hc Fc o o' Hw Hw')|]. intros p.
+          cbv beta iota. apply Fr_bind; [apply (Hc Fc o o' Hw Hw' Hsw)|]. intros p.
           apply Fr_bind; [apply Fr_refl|]. intros b.
-          destruct (truthy b); [apply (Hr Frr o o' Hw Hw')|apply IH; exact Ht].
+          destruct (truthy b); [apply (Hr Frr o o' Hw Hw' Hsw)|apply IH; exact Ht].
       + unf validate_ECase. apply Fr_bind; [exact V1|]. intros _.
         apply Fr_bind; [exact E1|]. intros x.
         clear IHe E1 V1 K1 Hs. induction H as [|[c r] cases [Hc Hr] Hrest IH].
-        * destruct dflt as [d|]; [apply (HD o o' Hw Hw')|apply Fr_refl].
+        * destruct dflt as [d|]; [apply (HD o o' Hw Hw' Hsw)|apply Fr_refl].
         * cbn [fst snd] in *. apply andb_prop in Ht as [Ht1 Ht]. apply andb_prop in Ht1 as [Fc Frr].
-          cbv beta iota. apply Fr_bind; [apply (Hc Fc o o' Hw Hw')|]. intros p.
+          cbv beta iota. apply Fr_bind; [apply (Hc Fc o o' Hw Hw' Hsw)|]. intros p.
           apply Fr_bind; [apply Fr_refl|]. intros b.
-          destruct (truthy b); [apply (Hr Frr o o' Hw Hw')|apply IH; exact Ht].
+          destruct (truthy b); [apply (Hr Frr o o' Hw Hw' Hsw)|apply IH; exact Ht].
       + unf keys_ECase. apply Fr_bind; [exact K1|]. intros a.
         apply Fr_bind; [exact E1|]. intros x.
         apply Fr_bind; [|intros; apply Fr_refl].
         clear IHe E1 V1 K1 Hs. induction H as [|[c r] cases [Hc Hr] Hrest IH].
-        * destruct dflt as [d|]; [apply (HD o o' Hw Hw')|apply Fr_refl].
+        * destruct dflt as [d|]; [apply (HD o o' Hw Hw' Hsw)|apply Fr_refl].
         * cbn [fst snd] in *. apply andb_prop in Ht as [Ht1 Ht]. apply andb_prop in Ht1 as [Fc Frr].
-          cbv beta iota. apply Fr_bind; [apply (Hc Fc o o' Hw Hw')|]. intros p.
+          cbv beta iota. apply Fr_bind; [apply (Hc Fc o o' Hw Hw' Hsw)|]. intros p.
           apply Fr_bind; [apply Fr_refl|]. intros b.
-          destruct (truthy b); [apply (Hr Frr o o' Hw Hw')|apply IH; exact Ht].
+          destruct (truthy b); [apply (Hr Frr o o' Hw Hw' Hsw)|apply IH; exact Ht].
     - (* ECoalesce *)
       repeat split.
       + unf eval_ECoalesce. apply Fr_wrap. generalize (@None (cause * bool)).
         induction H as [|m ms Hm Hrest IH]; intros last.
         * apply Fr_refl.
-        * apply andb_prop in Hf as [Fm Fms]. destruct (Hm Fm o o' Hw Hw') as (E1 & V1 & K1).
+        * apply andb_prop in Hf as [Fm Fms]. destruct (Hm Fm o o' Hw Hw' Hsw) as (E1 & V1 & K1).
           cbv beta iota. apply Fr_catch.
           -- apply Fr_bind; [exact V1|intros; exact E1].
           -- intros c ee. destruct ee; [apply IH; exact Fms|apply Fr_refl].
       + unf validate_ECoalesce. generalize (@None (cause * bool)).
         induction H as [|m ms Hm Hrest IH]; intros last.
         * apply Fr_refl.
-        * apply andb_prop in Hf as [Fm Fms]. destruct (Hm Fm o o' Hw Hw') as (E1 & V1 & K1).
+        * apply andb_prop in Hf as [Fm Fms]. destruct (Hm Fm o o' Hw Hw' Hsw) as (E1 & V1 & K1).
           cbv beta iota. apply Fr_catch.
           -- apply Fr_bind; [exact V1|intros; exact V1].
           -- intros c ee. destruct ee; [apply IH; exact Fms|apply Fr_refl].
       + unf keys_ECoalesce. generalize (@None (cause * bool)).
         induction H as [|m ms Hm Hrest IH]; intros last.
         * apply Fr_refl.
-        * apply andb_prop in Hf as [Fm Fms]. destruct (Hm Fm o o' Hw Hw') as (E1 & V1 & K1).
+        * apply andb_prop in Hf as [Fm Fms]. destruct (Hm Fm o o' Hw Hw' Hsw) as (E1 & V1 & K1).
           cbv beta iota. apply Fr_catch.
           -- apply Fr_bind; [exact V1|intros; exact K1].
           -- intros c ee. destruct ee; [apply IH; exact Fms|apply Fr_refl].
@@ -276,21 +276,21 @@ Section FrameTheorem.
       + unf eval_EIter. apply Fr_wrap. apply Fr_bind; [|intros; apply Fr_refl].
         clear H Hf. induction es as [|x es IH]; [apply Fr_refl|].
         cbv beta iota. apply Fr_catch; [|intros; apply Fr_refl].
-        apply Fr_bind; [apply (HA x (or_introl eq_refl) o o' Hw Hw')|]. intros v.
+        apply Fr_bind; [apply (HA x (or_introl eq_refl) o o' Hw Hw' Hsw)|]. intros v.
         destruct (is_some (deep_err v)); [apply Fr_refl|].
         apply Fr_bind; [|intros; apply Fr_refl]. apply IH. intros y Hy. apply HA. now right.
-      + unf validate_EIter. apply Fr_iterM. intros x Hx. apply (HA x Hx o o' Hw Hw').
-      + unf keys_EIter. apply Fr_unionM. intros x Hx. apply (HA x Hx o o' Hw Hw').
+      + unf validate_EIter. apply Fr_iterM. intros x Hx. apply (HA x Hx o o' Hw Hw' Hsw).
+      + unf keys_EIter. apply Fr_unionM. intros x Hx. apply (HA x Hx o o' Hw Hw' Hsw).
     - (* EWith *)
       destruct p; [|discriminate].
-      destruct (IHe Hf o o' Hw Hw') as (E1 & V1 & K1).
+      destruct (IHe Hf o o' Hw Hw' Hsw) as (E1 & V1 & K1).
       repeat split.
       + unf eval_EWith. rewrite !with_opts_nil by assumption. apply Fr_wrap. exact E1.
       + unf validate_EWith. rewrite !with_opts_nil by assumption. exact V1.
       + unf keys_EWith. cbv zeta. rewrite !with_opts_nil by assumption.
         apply Fr_bind; [exact K1|]. intros ks. rewrite !filter_preset_nil. apply Fr_refl.
     - (* ECached *)
-      destruct (IHe Hf o o' Hw Hw') as (E1 & V1 & K1).
+      destruct (IHe Hf o o' Hw Hw' Hsw) as (E1 & V1 & K1).
       repeat split.
       + unf eval_ECached. apply Fr_wrap. destruct c; [|exact E1].
         cbn [cfg_nc cache_ctx_off orb]. exact E1.
@@ -299,35 +299,42 @@ Section FrameTheorem.
       + unf keys_ECached. exact K1.
     - (* ECall *)
       apply andb_prop in Hf as [Hf Hkw]. apply andb_prop in Hf as [Hfn Har].
-      destruct (IHe Hfn o o' Hw Hw') as (E1 & V1 & K1).
+      destruct (IHe Hfn o o' Hw Hw' Hsw) as (E1 & V1 & K1).
       assert (HA : forall x, In x args -> FrAll x).
       { intros x Hx. rewrite Forall_forall in H. apply (H x Hx). apply (frag_all_In args Har x Hx). }
       assert (HK : forall x, In x kwargs -> FrAll x).
       { intros x Hx. rewrite Forall_forall in H0. apply (H0 x Hx). apply (frag_all_In kwargs Hkw x Hx). }
       repeat split.
       + unf eval_ECall. apply Fr_wrap. apply Fr_bind; [exact E1|]. intros fv.
-        apply Fr_bind; [apply Fr_mapM; intros x Hx; apply (HA x Hx o o' Hw Hw')|]. intros av.
-        apply Fr_bind; [apply Fr_mapM; intros x Hx; apply (HK x Hx o o' Hw Hw')|]. intros kv.
+        apply Fr_bind; [apply Fr_mapM; intros x Hx; apply (HA x Hx o o' Hw Hw' Hsw)|]. intros av.
+        apply Fr_bind; [apply Fr_mapM; intros x Hx; apply (HK x Hx o o' Hw Hw' Hsw)|]. intros kv.
         apply Fr_refl.
       + unf validate_ECall. apply Fr_bind; [exact V1|]. intros _.
-        apply Fr_bind; [apply Fr_iterM; intros x Hx; apply (HA x Hx o o' Hw Hw')|]. intros _.
-        apply Fr_iterM; intros x Hx; apply (HK x Hx o o' Hw Hw').
+        apply Fr_bind; [apply Fr_iterM; intros x Hx; apply (HA x Hx o o' Hw Hw' Hsw)|]. intros _.
+        apply Fr_iterM; intros x Hx; apply (HK x Hx o o' Hw Hw' Hsw).
       + unf keys_ECall. apply Fr_bind; [exact K1|]. intros a.
-        apply Fr_bind; [apply Fr_unionM; intros x Hx; apply (HA x Hx o o' Hw Hw')|]. intros b.
-        apply Fr_bind; [apply Fr_unionM; intros x Hx; apply (HK x Hx o o' Hw Hw')|]. intros c.
+        apply Fr_bind; [apply Fr_unionM; intros x Hx; apply (HA x Hx o o' Hw Hw' Hsw)|]. intros b.
+        apply Fr_bind; [apply Fr_unionM; intros x Hx; apply (HK x Hx o o' Hw Hw' Hsw)|]. intros c.
         apply Fr_refl.
     - (* EComp *)
-      apply andb_prop in Hf as [Hfe Heff]. destruct effects; [|discriminate].
-      destruct (IHe Hfe o o' Hw Hw') as (E1 & V1 & K1).
+      apply andb_prop in Hf as [Hfe Heff].
+      destruct (IHe Hfe o o' Hw Hw' Hsw) as (E1 & V1 & K1).
+      assert (HA : forall x, In x effects -> FrAll x).
+      { intros x Hx. rewrite Forall_forall in H. apply (H x Hx). apply (frag_all_In effects Heff x Hx). }
       repeat split.
       + unf eval_EComp. apply Fr_wrap. apply Fr_bind; [exact E1|]. intros v.
         apply Fr_bind; [|intros; apply Fr_refl].
-        apply Fr_pure_unit; exists []; destruct (effects_opt_off _); split; reflexivity.
+        assert (HI : Fr o o' (iterM unit (fun eff => bind unit (evalN eff o) (fun f => bind unit (call_value unit u f v) (fun _ => ret unit tt))) effects)
+                             (iterM unit (fun eff => bind unit (evalN eff o') (fun f => bind unit (call_value unit u f v) (fun _ => ret unit tt))) effects)).
+        { apply Fr_iterM. intros x Hx. apply Fr_bind; [apply (HA x Hx o o' Hw Hw' Hsw)|]. intros; apply Fr_refl. }
+        rewrite Hsw. destruct (effects_opt_off o); [apply Fr_refl|exact HI].
       + unf validate_EComp. apply Fr_bind; [exact V1|]. intros _.
-        apply Fr_pure_unit; exists []; destruct (effects_opt_off _); split; reflexivity.
+        assert (HI : Fr o o' (iterM unit (fun x => validateN x o) effects) (iterM unit (fun x => validateN x o') effects)).
+        { apply Fr_iterM. intros x Hx. apply (HA x Hx o o' Hw Hw' Hsw). }
+        rewrite Hsw. destruct (effects_opt_off o); [apply Fr_refl|exact HI].
       + unf keys_EComp. exact K1.
     - (* ELogged *)
-      destruct (IHe Hf o o' Hw Hw') as (E1 & V1 & K1).
+      destruct (IHe Hf o o' Hw Hw' Hsw) as (E1 & V1 & K1).
       repeat split.
       + unf eval_ELogged. apply Fr_wrap. apply Fr_bind; [apply Fr_refl|]. intros _.
         apply Fr_bind; [|intros; exact E1].
@@ -341,8 +348,8 @@ Section FrameTheorem.
       { intros x Hx. rewrite Forall_forall in H. apply (H x Hx). apply (frag_all_In steps Hf x Hx). }
       repeat split.
       + unf eval_EPipe. apply Fr_wrap. apply Fr_bind; [|intros; apply Fr_refl].
-        apply Fr_mapM; intros x Hx; apply (HA x Hx o o' Hw Hw').
-      + unf validate_EPipe. apply Fr_iterM; intros x Hx; apply (HA x Hx o o' Hw Hw').
-      + unf keys_EPipe. apply Fr_unionM; intros x Hx; apply (HA x Hx o o' Hw Hw').
+        apply Fr_mapM; intros x Hx; apply (HA x Hx o o' Hw Hw' Hsw).
+      + unf validate_EPipe. apply Fr_iterM; intros x Hx; apply (HA x Hx o o' Hw Hw' Hsw).
+      + unf keys_EPipe. apply Fr_unionM; intros x Hx; apply (HA x Hx o o' Hw Hw' Hsw).
   Qed.
 End FrameTheorem.
